@@ -1,7 +1,8 @@
 """C02 - instances mirror their definition (Engine A)."""
 import time
 
-from vlib import core, engine_a, scenarios, wf
+from vlib import core, engine_a, engine_b, scenarios, wf
+from checks import _bulk
 from vlib.engine_a import Oracle
 
 ID = "C02"
@@ -104,8 +105,29 @@ def run(tier, seed):
     k = seed % len(scns)
     for scn in scns[k:] + scns[:k]:
         engine_a.explore(ID, scn, tier, cov, found, deadline)
+    # bulk removals at scale: every subset of the members of every container kind
+    t0 = time.time()
+    bcs = _bulk.cases(tier)
+    nb = 0
+    for case, r in zip(bcs, core.pimap(engine_b._call, [(ID, c) for c in bcs], 64)):
+        nb += r["transitions"]
+        for sig, what in r.get("problems", ()):
+            f = found.get(sig)
+            if f is None:
+                found[sig] = {"count": 1, "what": what, "case": {"engine": "B", "worker": ID, "case": case}}
+            else:
+                f["count"] += 1
+    cov.add("transitions", nb)
+    cov.add("evaluations", nb)
+    cov.add("traces_validated_against_impl", nb)
+    cov["bounds_completed"]["bulk-removals"] = {"cases": len(bcs), "max_members": 6 if tier == "quick" else 8, "wall_s": round(time.time() - t0, 2)}
     return cov, found
 
 
+engine_b.WORKERS[ID] = lambda case: _bulk.worker(case, wf.inv_c02)
+
+
 def replay(case):
+    if case.get("engine") == "B":
+        return engine_b.replay_case(case)
     return engine_a.replay_case(case)
